@@ -170,7 +170,17 @@ DnsRequest::ReqId DnsRequest::request(const DomainName &domain, const Callback &
         return false;
     }
 
-    ReqId req_id = ++req_id_alloc_;
+    //! ReqId 只有16位，用完一轮会回绕：0 是失败时的返回值，正在使用的号属于别的请求，都要跳过
+    if (requests_.size() >= 0xffff) {
+        LogWarn("too many dns requests");
+        return 0;
+    }
+
+    ReqId req_id;
+    do {
+        req_id = ++req_id_alloc_;
+    } while (req_id == 0 || requests_.find(req_id) != requests_.end());
+
     std::vector<uint8_t> send_buff;
 
     util::Serializer dump(send_buff);
@@ -325,10 +335,15 @@ void DnsRequest::onUdpRecv(const void *data_ptr, size_t data_size, const SockAdd
     (void)from;
 }
 
-void DnsRequest::onRequestTimeout(ReqId req_id)
+void DnsRequest::onRequestTimeout(TimeoutToken token)
 {
+    ReqId req_id = static_cast<ReqId>(token & 0xffff);
     auto req = findRequest(req_id);
     if (req == nullptr)
+        return;
+
+    //! 这个号之前的请求已经结束或取消，现在的请求是后来才用上这个号的，它自己的超时还没到
+    if (req->serial != static_cast<uint32_t>(token >> 16))
         return;
 
     Result result;
@@ -347,9 +362,10 @@ void DnsRequest::addRequest(ReqId req_id, const Callback &cb)
 
     Request req;
     req.cb = cb;
+    req.serial = ++serial_alloc_;
 
     requests_[req_id] = req;
-    timeout_monitor_.add(req_id);
+    timeout_monitor_.add((static_cast<TimeoutToken>(req.serial) << 16) | req_id);
 }
 
 DnsRequest::Request* DnsRequest::findRequest(ReqId req_id)
